@@ -128,6 +128,8 @@ def main():
             by_cause.setdefault(v.get("cause", "?"), []).append(v)
         new_lines, known_lines = [], []
         rdir = os.path.join(HERE, "replays", pid)
+        if os.environ.get("VF_NO_EVIDENCE"):
+            rdir = os.path.join(HERE, "replays", "_seeded", pid)
         if os.path.isdir(rdir):
             for fn in os.listdir(rdir):
                 if fn.startswith(tier + "_"):
@@ -174,6 +176,9 @@ def main():
         }
         os.makedirs(os.path.join(HERE, "evidence"), exist_ok=True)
         epath = os.path.join(HERE, "evidence", "%s.json" % pid)
+        if os.environ.get("VF_NO_EVIDENCE"):
+            # mutation-detection runs (tools_seed.py) must not overwrite committed evidence
+            epath = os.path.join(tmp, "evidence.json")
         with open(epath, "w") as f:
             json.dump(ev, f, indent=1, default=str)
         ok = validate_evidence(epath)
